@@ -564,7 +564,7 @@ class PEval:
             if name == "shape":
                 return ("shape-of", base.term)
             return ("method", base, name)
-        if isinstance(base, list) and name in ("append", "extend"):
+        if isinstance(base, list) and name in ("append", "extend", "children", "named_children", "parameters", "modules"):
             return ("listmethod", base, name)
         if isinstance(base, tuple) and base and base[0] == "size":
             return ("method", base, name)
@@ -859,8 +859,19 @@ class PEval:
             _, lst, name = f
             if name == "append":
                 lst.append(args[0])
-            else:
+            elif name == "extend":
                 lst.extend(self.iterate(args[0]))
+            elif name == "children":
+                # nn.Module.children() of an nn.ModuleList: the sub-modules WITHOUT repetitions (torch
+                # de-duplicates by identity) -- a part used twice appears once
+                seen, out = set(), []
+                for it in lst:
+                    if id(it) not in seen:
+                        seen.add(id(it))
+                        out.append(it)
+                return PIter(out)
+            else:
+                raise Undecided("ModuleList.%s()" % name)
             return None
         if isinstance(f, tuple) and f and f[0] == "method":
             _, x, name = f
